@@ -27,7 +27,7 @@ from .absint import BoolF, Coll, Const, DictV, Inst, Interp, Sym, assign_atoms, 
 from .common import where
 from .tables import (
     ATOMS, BEHAVIOR, DETECTOR, EVAL_GRAPH, EXPLICIT_QUERY, LEGAL_POINTS, MATCHER, MODREQ, OTHER_QUERIES, PIPE_MODULES, RULE, SEARCHES, VERBS, VIOLATIONS,
-    Inliner, Run, Scenario, alias_scenarios, bound_args, descend_pipeline, asked_kinds, bucket_wiring, demand_run, legal_scenarios, parse_language_doc, plain_mode, point_env, point_name,
+    EVALUABLE_CLS, Inliner, Run, Scenario, alias_scenarios, bound_args, descend_pipeline, plain_detector_class, simple_helper, violations_class, asked_kinds, bucket_wiring, demand_run, legal_scenarios, parse_language_doc, plain_mode, point_env, point_name,
     run_scenario,
 )
 
@@ -74,7 +74,8 @@ def run_t1(repo: Repo, res: Result, inl: Inliner | None, markers: dict) -> None:
         run = run_scenario(repo, sc)
         for q in run.queries:
             sites.setdefault("explicit" if q.name == EXPLICIT_QUERY else "other", q)
-    matcher_cls = repo.cls(MATCHER, "RuleMatcher")
+    probe = run_scenario(repo, Scenario("should", False, True))
+    matcher_cls = probe.matcher.cls if probe.matcher is not None else repo.cls(MATCHER, "RuleMatcher")
     for kind in ("explicit", "other"):
         q = sites.get(kind)
         prefix = f"{q.fi.relpath}::{q.fi.qualname}" if q is not None else f"{matcher_cls.module.relpath}::{matcher_cls.name}"
@@ -122,7 +123,7 @@ def run_t1(repo: Repo, res: Result, inl: Inliner | None, markers: dict) -> None:
 
 def run_t2_t3(repo: Repo, res: Result, inl: Inliner | None, sem: dict) -> None:
     grv, buckets = bucket_wiring(repo, inl)
-    viol = repo.cls(VIOLATIONS, "RuleViolations")
+    viol = violations_class(repo)
     table = {}
     for verb, exc in LEGAL_POINTS:
         want = sem[(verb, exc)]
@@ -163,7 +164,7 @@ def run_t2_t3(repo: Repo, res: Result, inl: Inliner | None, sem: dict) -> None:
     for f in viol.ann_attrs:
         mode, gran, detail, und = plain_mode(repo, f)
         b = call_of.get(f)
-        helper = repo.lookup_method(repo.cls(DETECTOR, "RuleViolationDetector"), b.method) if b is not None and b.method else None
+        helper = repo.lookup_method(plain_detector_class(repo), b.method) if b is not None and b.method else None
         prefix = f"{helper.relpath}::{helper.qualname}" if helper is not None else f"{grv.relpath}::{grv.qualname}"
         ok = (mode, gran) in (("absent", "per-key"), ("present", "per-pair"))
         _add(
@@ -206,17 +207,33 @@ def search_direction(repo: Repo, fi: FuncInfo) -> str | None:
     return None
 
 
+def _stub(f: FuncInfo) -> bool:
+    """Body is only a docstring / `...` / `pass` / `raise NotImplementedError` (protocol or abstract declaration)."""
+    for st in f.node.body:
+        if isinstance(st, ast.Expr) and isinstance(st.value, ast.Constant):
+            continue
+        if isinstance(st, ast.Pass):
+            continue
+        if isinstance(st, ast.Raise) and st.exc is not None and "NotImplemented" in ast.unparse(st.exc):
+            continue
+        return False
+    return True
+
+
 def graph_query_model(repo: Repo, qname: str) -> dict:
     """How EvaluableArchitectureGraph.<qname> builds its answer: {direction, entries: [(key roots, scalar arg roots, collection arg roots)]}."""
-    eg = repo.cls(EVAL_GRAPH, "EvaluableArchitectureGraph")
-    m = repo.lookup_method(eg, qname)
-    if m is None or m.is_abstract:
-        raise AnalysisError(f"EvaluableArchitectureGraph.{qname} not found")
-    I = Interp(repo, lambda f: f.module.name == EVAL_GRAPH)
+    proto = repo.classes.get(EVALUABLE_CLS)
+    impls = [i for i in (repo.implementations(proto, qname) if proto is not None else []) if not i.is_abstract and i.cls is not None and i.cls is not proto and not _stub(i)]
+    if len(impls) != 1:
+        raise AnalysisError(f"expected exactly one concrete implementation of EvaluableArchitecture.{qname}, found {[i.fq for i in impls]}")
+    m = impls[0]
+    eg = m.cls
+    home = eg.module.name
+    I = Interp(repo, lambda f: (f.module.name == home and (f.cls is None or any(c.fq == f.cls.fq for c in repo.mro(eg)))) or ((f.cls is None or f.is_staticmethod) and f.outer is None and simple_helper(f)))
     inst = I.instantiate(eg, [Sym(("root", "graph"))], {}, None, None)
     p1, p2 = Sym(("root", "P1"), "list"), Sym(("root", "P2"), "list")
     out = I.call_method(inst, qname, [p1, p2])
-    searches = [e for e in I.events if e.kind == "call" and e.callee is not None and e.callee.module.name == SEARCHES]
+    searches = [e for e in I.events if e.kind == "call" and e.callee is not None and search_direction(repo, e.callee) is not None]
     dirs = {search_direction(repo, e.callee) for e in searches}
     entries = []
     if isinstance(out, DictV):
@@ -238,7 +255,8 @@ def graph_query_model(repo: Repo, qname: str) -> dict:
 
 
 def run_t4(repo: Repo, res: Result, inl: Inliner | None) -> None:
-    mr_cls = repo.cls(MODREQ, "ModuleRequirement")
+    probe = run_scenario(repo, Scenario("should", False, True))
+    mr_cls = probe.modreq_new[0].result.cls if probe.modreq_new else repo.cls(MODREQ, "ModuleRequirement")
     # (a) what the accessors of a requirement built as ModuleRequirement(A, B, flag) return
     for acc, exchanged in (("importers_as_specified_by_user", False), ("importees_as_specified_by_user", False), ("importers", True), ("importees", True)):
         got = {}
@@ -278,7 +296,7 @@ def run_t4(repo: Repo, res: Result, inl: Inliner | None) -> None:
             a0, a1 = _side(eargs[0]), _side(eargs[1])
             flag = eargs[2]
             ok = a0 == {subj} and a1 == {obj} and isinstance(flag, Const) and flag.value is imp
-            what = "rule" if e.fi is not None and e.fi.module.name == RULE else "matcher"
+            what = "rule" if e.fi is not None and e.fi.cls is not None and any(c.fq == e.fi.cls.fq for c in repo.mro(run.rule.cls)) else "matcher"
             detail = (
                 f"{e.fi.qualname if e.fi else '?'} builds ModuleRequirement(subjects, objects, import_) for {'import' if imp else 'be-imported-by'} rules" if ok
                 else f"{e.fi.qualname if e.fi else '?'} builds ModuleRequirement from ({'/'.join(sorted(a0)) or '?'}, {'/'.join(sorted(a1)) or '?'}, {show_term(term_of(flag))}) for {'import' if imp else 'be-imported-by'} rules "
@@ -591,10 +609,9 @@ _CATCHES_ASSERTION = {"", "Exception", "BaseException", "AssertionError"}
 
 
 def run_t6(repo: Repo, res: Result) -> None:
-    matcher = repo.cls(MATCHER, "RuleMatcher")
-    match = repo.lookup_method(matcher, "match")
-    if match is None:
-        raise AnalysisError("RuleMatcher.match not found")
+    probe = run_scenario(repo, Scenario("should", False, True))
+    matcher = probe.matcher.cls if probe.matcher is not None else repo.cls(MATCHER, "RuleMatcher")
+    match = repo.lookup_method(matcher, "match") or repo.lookup_method(repo.cls(RULE, "Rule"), "assert_applies")
     bad = []
     site = None
     swallow = []
@@ -611,7 +628,7 @@ def run_t6(repo: Repo, res: Result) -> None:
         if not _same(got, want):
             bad.append(f"'{sc.name}': AssertionError is raised under `{show(got)[:120]}` instead of exactly when the violations found are truthy")
         for fi, node in run.interp.try_nodes:
-            if fi.module.name in (RULE, MATCHER):
+            if not fi.module.name.startswith("pytestarch.eval_structure"):
                 names = {("" if h.type is None else ast.unparse(h.type).split(".")[-1]) for h in node.handlers}
                 if names & _CATCHES_ASSERTION or any(isinstance(h.type, ast.Tuple) for h in node.handlers):
                     swallow.append((fi, node))
@@ -628,7 +645,7 @@ def run_t6(repo: Repo, res: Result) -> None:
         where(*swallow[0]) if swallow else where(match, match.node), nontrivial=False,
     )
     # truthiness covers every bucket
-    viol = repo.cls(VIOLATIONS, "RuleViolations")
+    viol = violations_class(repo)
     b = repo.lookup_method(viol, "__bool__") or repo.lookup_method(viol, "__len__")
     fields = list(viol.ann_attrs)
     if b is None:
